@@ -225,7 +225,7 @@ def run(ctx):
     if quick:
         # the classes left out above: every constructor with valid and one-bad-argument lists (no assignment histories)
         run_model(ctx, 'constructors_of_the_other_classes', cfg('ClsQuickRest', 'ActsCtor', 1, 1), cat, cls, 'C17')
-    run_model(ctx, 'meta_ops', cfg('ClsPoint', 'ActsMeta', 1, 3 if quick else 4), cat, cls, 'C17')
+    run_model(ctx, 'meta_ops', cfg('ClsPoint', 'ActsMeta', 1, 3), cat, cls, 'C17')      # (depth 4 no longer finishes since the two-entry updates were added: 15 entry points x 7 keys x 3 values per step)
     simulate(ctx, cfg('ClsFew', 'ActsAll', 1, 20), cat, cls, 'C17', 80 if quick else 3000, 21, ctx.seed + 17)
     from . import lists
     lists.run(ctx, 'C17')
